@@ -18,7 +18,7 @@ EXPLANATION = (
     "fresh cache; process-dependent constants baked into generated code (hash()) flow only into the validating keyword "
     "constructor, which must intern under a hash computed in the current process."
 )
-DECIDES = "validation-dominates-use, writer/reader header layout, invalid-cache exceptions reach the fallback, cache rewritten on fallback, hash-seed independence of baked keyword hashes"
+DECIDES = "validation-dominates-use, writer/reader header layout, invalid-cache exceptions reach the fallback, cache rewritten on fallback (and a failed write not failing the import), header fields compared as written, the fallback covering the read of the cache only, hash-seed independence of baked keyword hashes"
 DECLINED = "observational equivalence of namespaces loaded from cache vs source; truncation inside the marshal payload is a trusted fact about marshal (EOFError)"
 TRUSTED = ["FT-marshal: marshal.loads on a strict prefix of its input raises EOFError", "open() failures are OSError subclasses", "hashlib digests do not depend on the process"]
 ASSUMPTIONS = ["PYTHONHASHSEED may differ between the process that wrote a cache and the one that loads it"]
